@@ -64,7 +64,8 @@ def parseOp (line : String) : Op :=
       match cmd with
       | "new" => do
         let p ← (← get "p").toNat?
-        let hdr ← match get "hdr" with
+        -- `hdr=a>b>..` is a chain of builder calls: the last one decides
+        let hdr ← match (get "hdr").map (fun h => (h.splitOn ">").getLast?.getD h) with
           | some "any" | none => some none
           | some h => (unhex h).map some
         pure (.new p hdr (parseCaches ((get "caches").getD "-")))
@@ -72,7 +73,8 @@ def parseOp (line : String) : Op :=
         let p ← match get "p" with
           | some "any" | none => some none
           | some v => v.toNat?.map some
-        let hdr ← match get "hdr" with
+        -- `hdr=a>b>..` is a chain of builder calls: the last one decides
+        let hdr ← match (get "hdr").map (fun h => (h.splitOn ">").getLast?.getD h) with
           | some "any" | none => some none
           | some h => (unhex h).map some
         let cb := match get "cb" with
